@@ -691,6 +691,315 @@ class TemporariesStream(Stream):
             acc[k] = acc.get(k, 0) + int(n)
 
 
+# {{{ every rule applied to every kind of operand (two-level compositions)
+
+INNER2 = ("sum", "prod", "quot", "pow")
+INNER1 = ("fn", "cse")
+OUTER2 = ("quot", "pow", "prod", "sum")
+
+
+def operand_options():
+    """(kind, dependence pattern): one letter per leaf of the operand, `d` = the leaf depends on the
+    differentiation variable, `i` = it does not"""
+    opts = [("leaf", "d"), ("leaf", "i")]
+    opts += [(k, a + b) for k in INNER2 for a in "di" for b in "di"]
+    opts += [(k, a) for k in INNER1 for a in "di"]
+    return opts
+
+
+def build_node(rng, kind, kids):
+    if kind == "leaf":
+        return kids[0]
+    if kind == "sum":
+        return p.Sum(tuple(kids))
+    if kind == "prod":
+        return p.Product(tuple(kids))
+    if kind == "quot":
+        return p.Quotient(kids[0], kids[1])
+    if kind == "pow":
+        return p.Power(kids[0], kids[1])
+    if kind == "fn":
+        return mf(rng.choice(SMOOTH), kids[0])
+    if kind == "cse":
+        return p.CommonSubexpression(kids[0], rng.choice([None, "cs"]))
+    raise AssertionError(kind)
+
+
+class Composer:
+    """operands with a PRESCRIBED dependence on the differentiation variable `v`"""
+
+    def __init__(self, rng, v, others, rich=False):
+        self.rng, self.v, self.others, self.rich = rng, v, others, rich
+
+    def dep(self):
+        r, v = self.rng, self.v
+        o = r.choice(self.others)
+        pool = [v, v, v, v, p.Sum((v, 1)), p.Product((2, v)), p.Sum((v, o)), p.Product((v, o))]
+        if self.rich:
+            pool += [p.Power(v, 2), p.Quotient(v, o), mf("exp", v), p.CommonSubexpression(v)]
+        return r.choice(pool)
+
+    def indep(self):
+        r = self.rng
+        o, o2 = r.choice(self.others), r.choice(self.others)
+        pool = [o, o, o, 2, 3, 2, p.Sum((o, 1))]
+        if self.rich:
+            pool += [1, 0, -2, p.Product((o, o2)), p.Power(o, 2), mf("cos", o), p.CommonSubexpression(o)]
+        return r.choice(pool)
+
+    def leaf(self, c):
+        return self.dep() if c == "d" else self.indep()
+
+    def operand(self, opt, depth=0):
+        kind, pat = opt
+        kids = []
+        for c in pat:
+            if depth > 0 and self.rng.random() < 0.5:
+                # a deeper operand with the same dependence: some leaf of it carries the letter
+                sub = self.rng.choice([o_ for o_ in operand_options()
+                                       if o_[0] != "leaf" and (c == "d") == ("d" in o_[1])])
+                kids.append(self.operand(sub, depth - 1))
+            else:
+                kids.append(self.leaf(c))
+        return build_node(self.rng, kind, kids)
+
+
+class ComposedStream(TreeStream):
+    """EVERY two-child rule (quotient, power, product, sum) applied to EVERY kind of operand in each
+    position (leaf, sum, product, quotient, power, function call, common subexpression), each leaf
+    of each operand once depending on the differentiation variable and once not: 22 x 22 operand
+    pairs per rule, exhaustively; the one-child rules and `If` over the 22 operands.  Targets
+    rules that special-case the SHAPE of an operand (a power in the denominator, a product under a
+    power, a quotient of quotients ...) and are right only for some dependence patterns of that
+    operand's leaves.  Judged by the dual-number value oracle (and compared with the model)."""
+    name = "composed-rules"
+
+    VARS = [(x, [y, z]), (a0, [x, a1]), (y, [x, a0]), (x, [y, a0])]
+
+    def cases(self, rng, tier):
+        opts = operand_options()
+        passes = 1 if tier == "quick" else 6
+        i = 0
+        for ps in range(passes):
+            for outer in OUTER2:
+                for oa, ob in itertools.product(opts, opts):
+                    if tier == "quick" and outer == "sum" and (oa[0] == "leaf" or ob[0] == "leaf"
+                                                               or rng.random() < 0.75):
+                        continue          # the sum rule is linear: a sample is enough here
+                    v, others = self.VARS[i % len(self.VARS)]
+                    c = Composer(rng, v, others, rich=ps > 0)
+                    e = build_node(rng, outer, [c.operand(oa), c.operand(ob)])
+                    yield self.mk(e, v, "none", i)
+                    i += 1
+            for outer in INNER1:
+                for oa in opts:
+                    v, others = self.VARS[i % len(self.VARS)]
+                    c = Composer(rng, v, others, rich=ps > 0)
+                    yield self.mk(build_node(rng, outer, [c.operand(oa)]), v, "none", i)
+                    i += 1
+            for oa in opts:
+                for ob in rng.sample(opts, 3):
+                    v, others = self.VARS[i % len(self.VARS)]
+                    c = Composer(rng, v, others, rich=ps > 0)
+                    cond = p.Comparison(c.leaf(rng.choice("di")), rng.choice(["<", ">", "<=", ">="]),
+                                        c.leaf(rng.choice("di")))
+                    yield self.mk(p.If(cond, c.operand(oa), c.operand(ob)), v,
+                                  "discontinuous" if i % 4 else rng.choice(CFGS), i)
+                    i += 1
+        # three levels: operands of operands, same prescription of the dependence
+        n = 300 if tier == "quick" else 12000
+        for _ in range(n):
+            v, others = self.VARS[i % len(self.VARS)]
+            c = Composer(rng, v, others, rich=bool(i % 2))
+            outer = rng.choice(OUTER2[:3])
+            e = build_node(rng, outer, [c.operand(rng.choice(opts), 1), c.operand(rng.choice(opts), 1)])
+            yield self.mk(e, v, "none", i)
+            i += 1
+
+    @staticmethod
+    def mk(e, v, cfg, i):
+        pl = payload(e, v, isinstance(v, p.Variable) and i % 2 == 0, cfg)
+        pl["share"] = bool(i % 3 == 0)
+        return pl
+
+# }}}
+
+# {{{ histories of calls of the ENTRY POINT, each judged on its own
+
+def call_text(c):
+    e, v = sx_to_expr(loads(c["expr"])), sx_to_expr(loads(c["var"]))
+    va = repr(v.name) if c.get("varstr") and isinstance(v, p.Variable) else show(v)
+    if c.get("via") == "mapper":
+        return f"DifferentiationMapper({show(v)}, allowed_nonsmoothness={c['cfg']!r})({show(e)})"
+    return f"differentiate({show(e)}, {va}, allowed_nonsmoothness={c['cfg']!r})"
+
+
+def judge_history(pl):
+    """The calls of `pl` made one after the other IN THIS PROCESS, each judged the moment it returns
+    by the single-call oracle (`check_derivative`: refusal demanded by the property's words for
+    THIS call's setting, dual-number value otherwise).  Run in a pristine process by the stream."""
+    from pymbolic.mapper.differentiator import DifferentiationMapper
+    memo = {} if pl.get("share") else None
+    res = {"failure": None, "refused": 0, "answered": 0}
+    for i, c in enumerate(pl["calls"]):
+        e = sx_to_expr(loads(c["expr"]))
+        if memo is not None:
+            e = hashcons(e, memo)       # one object per distinct subtree for the WHOLE history
+        v = sx_to_expr(loads(c["var"]))
+        mapper = None
+        if c.get("via") == "mapper":
+            with warnings.catch_warnings():
+                warnings.simplefilter("ignore")
+                mapper = DifferentiationMapper(v, allowed_nonsmoothness=c["cfg"])
+        f = check_derivative(e, v, the_var(c), c["cfg"], None, mapper=mapper)
+        if f is not None:
+            res["failure"] = {"call": i, "key": f.key, "detail": f.detail}
+            return res
+        res["refused" if LAST.get("mode") == "refused" else "answered"] += 1
+    return res
+
+
+class CallHistoryStream(Stream):
+    """HISTORIES of 2..6 calls of the entry point `differentiate()` (some through a fresh
+    `DifferentiationMapper`) in ONE process: the calls share common subexpressions (equal nodes, or
+    the very same objects) that wrap non-smooth constructs (fabs, sign, copysign, If) or smooth
+    ones, and differ in the expression around them, the differentiation variable and the
+    non-smoothness setting, in every order (permissive before strict and the reverse).  The
+    property speaks about each call on its own: whatever was asked before, THIS call must refuse
+    what its own setting does not allow and otherwise return the derivative w.r.t. its own
+    variable.  Each history runs in a pristine process (`harness/isolate.py`), so a failure is a
+    function of the recorded history alone; a failing call is then re-run ALONE in another pristine
+    process: if it fails there with the same key the key is the single-call one (as in `trees`),
+    otherwise it is `after-earlier-calls-<key>`."""
+    name = "entry-point-history"
+    has_model = False
+
+    def __init__(self):
+        from ..isolate import Pristine
+        self.iso = Pristine(["harness.props.c10", "pymbolic.mapper.differentiator"])
+        self.isolation = "pristine-process"
+        self.last = {}
+
+    # ---- generation
+    @staticmethod
+    def shared(rng, g, vars_, pool):
+        """a common subexpression the calls of a history will share"""
+        def arg():
+            k = rng.random()
+            t = rng.choice(vars_) if k < 0.5 else g.gen(1) if k < 0.8 else \
+                p.Sum((rng.choice(vars_), rng.choice([1, 2, y, z])))
+            if pool and rng.random() < 0.2:
+                t = p.Product((t, rng.choice(pool)))      # nested sharing
+            return t
+        k = rng.random()
+        if k < 0.25:
+            child = mf("fabs", arg())
+        elif k < 0.4:
+            child = mf("copysign", 1, arg())
+        elif k < 0.5:
+            child = mf("copysign", arg(), arg())
+        elif k < 0.7:
+            child = p.If(p.Comparison(arg(), rng.choice(["<", ">", "<=", ">="]), rng.choice([0, 1, y])),
+                         g.gen(1), g.gen(1))
+        elif k < 0.8:
+            child = p.Sum((g.gen(1), mf(rng.choice(["fabs", "fabs", "sin"]), arg())))
+        else:
+            child = g.gen(2)
+        return p.CommonSubexpression(child, rng.choice([None, "cs", "u"]),
+                                     rng.choice([p.cse_scope.EVALUATION, p.cse_scope.EXPRESSION]))
+
+    @staticmethod
+    def around(rng, g, parts):
+        k = rng.random()
+        if len(parts) == 1 and k < 0.25:
+            return parts[0]
+        if k < 0.5:
+            return p.Sum(tuple(parts))
+        if k < 0.75:
+            return p.Product(tuple(parts))
+        if k < 0.85 and len(parts) >= 2:
+            return p.Quotient(p.Sum(tuple(parts[:-1])), parts[-1])
+        if k < 0.93:
+            return p.Power(p.Sum(tuple(parts)), rng.choice([2, 3, -1]))
+        return mf(rng.choice(["sin", "exp", "tanh"]), p.Sum(tuple(parts)))
+
+    def cases(self, rng, tier):
+        n = 120 if tier == "quick" else 2500
+        for i in range(n):
+            g = DiffGen(rng, junk=0.0, floats=0.0)
+            vars_ = rng.sample([x, y, a0], rng.choice([1, 2, 2]))
+            pool = []
+            for _ in range(rng.randint(1, 3)):
+                pool.append(self.shared(rng, g, vars_, pool))
+            calls = []
+            for _ in range(rng.randint(2, 6)):
+                parts = [rng.choice(pool) for _ in range(rng.randint(1, 2))]
+                parts += [g.gen(rng.randint(0, 2)) for _ in range(rng.randint(0, 2))]
+                rng.shuffle(parts)
+                v = rng.choice(vars_)
+                calls.append({"expr": dumps(expr_to_sx(self.around(rng, g, parts))),
+                              "var": dumps(expr_to_sx(v)),
+                              "varstr": isinstance(v, p.Variable) and rng.random() < 0.5,
+                              "cfg": rng.choice(CFGS),
+                              "via": "mapper" if rng.random() < 0.2 else "function"})
+            yield {"calls": calls, "share": bool(i % 2)}
+
+    def run_impl(self, pl):
+        return "(oracle-only)"
+
+    # ---- judgement
+    def judge(self, pl):
+        if self.isolation == "pristine-process":
+            try:
+                return self.iso.call("harness.props.c10:judge_history", pl)
+            except (RuntimeError, OSError, ValueError):
+                # no helper process on this machine: the history is judged in this process (a
+                # finding may then also depend on what this process ran before)
+                self.isolation = "in-process"
+        return judge_history(pl)
+
+    def oracle(self, pl):
+        res = self.judge(pl)
+        self.last = res
+        fl = res["failure"]
+        if fl is None:
+            return None
+        i, calls = fl["call"], pl["calls"]
+        alone = self.judge({**pl, "calls": [calls[i]]})["failure"] if i > 0 else fl
+        if alone is not None and alone["key"] == fl["key"]:
+            return Failure(fl["key"], f"{call_text(calls[i])}: {fl['detail']}", pl)
+        before = "; ".join(call_text(c) for c in calls[:i])
+        then = "holds" if alone is None else f"fails differently ({alone['key']})"
+        return Failure("after-earlier-calls-" + fl["key"],
+                       f"call #{i + 1} of one process: {call_text(calls[i])}: {fl['detail']} -- the same "
+                       f"call made first in a new process {then}; the calls before it: {before}", pl)
+
+    def shrink(self, pl):
+        cs = pl["calls"]
+        for i in range(len(cs)):
+            if len(cs) > 1:
+                yield {**pl, "calls": cs[:i] + cs[i + 1:]}
+        if pl.get("share"):
+            yield {**pl, "share": False}
+        for i in range(len(cs)):
+            if cs[i].get("via") == "mapper":
+                yield {**pl, "calls": cs[:i] + [{**cs[i], "via": "function"}] + cs[i + 1:]}
+            for s_ in sx_shrinks(loads(cs[i]["expr"])):
+                yield {**pl, "calls": cs[:i] + [{**cs[i], "expr": dumps(s_)}] + cs[i + 1:]}
+
+    def nontrivial_key(self, pl, model, impl):
+        return json_key(pl)
+
+    def stats(self, pl, mo, io, acc):
+        acc["histories"] = acc.get("histories", 0) + 1
+        acc["calls"] = acc.get("calls", 0) + len(pl["calls"])
+        for k in ("refused", "answered"):
+            acc[k] = acc.get(k, 0) + int(self.last.get(k, 0))
+        acc["isolation"] = self.isolation
+
+# }}}
+
+
 def confusable_cses(e):
     """two CommonSubexpression nodes that are `==` but not the same tree (1 / True / 1.0)"""
     cs = [t for t in dual.subterms(e) if isinstance(t, p.CommonSubexpression)]
@@ -806,8 +1115,12 @@ def value_mismatch(e, d, wrt, rng, tries=10, want=3):
                         f"evaluated there")
             except Exception:
                 continue
+            # float mode: the reference's running rounding bound measures how ill-conditioned the
+            # point is (a derivative that is 0 by cancellation of terms of size 1e12 is not 0 in
+            # floats, for either formula); exact mode: no slack beyond the relative 1e-9
+            slack = 0.0 if exact else 64 * ref.d.e
             try:
-                ok = abs(complex(gv) - complex(r)) <= 1e-9 * max(1.0, abs(complex(r)))
+                ok = abs(complex(gv) - complex(r)) <= 1e-9 * max(1.0, abs(complex(r))) + slack
             except Exception:
                 continue
             if not ok:
@@ -1082,7 +1395,7 @@ PROP = Prop(
     theorems=[],
     extractors=[extract],
     streams=[TreeStream(), HistStream(), TableStream(), GenTableStream(), GenTreeStream(),
-             RuleStream(), TemporariesStream()],
+             RuleStream(), TemporariesStream(), ComposedStream(), CallHistoryStream()],
     probes=[probes],
     trusted_base=[
         "Lean 4.33 kernel; axioms propext, Classical.choice, Quot.sound only",
